@@ -117,6 +117,13 @@ func (s *fsess) dump() string {
 }
 
 func (s *fsess) fail(what string) {
+	s.run.Fail(what, map[string]interface{}{"session": append([]string{}, s.ops...)})
+}
+
+// failOrder: a violation of the delivery order. In a session in which a peer answered with the
+// genuine ids but an altered header (height of the first or of an inner block, parent of the first
+// block) this is the known finding C17-header-not-bound-to-id; anywhere else it is a violation.
+func (s *fsess) failOrder(what string) {
 	rep := map[string]interface{}{"session": append([]string{}, s.ops...)}
 	if s.forged {
 		s.run.FailKnown(what+" (a peer altered the header of a block and kept its id)", classForgedNo, rep)
@@ -184,7 +191,7 @@ func (s *fsess) checkDelivered() {
 	for k, b := range s.delivered {
 		h := uint64(s.anc + 1 + k)
 		if h > uint64(s.target) {
-			s.fail(fmt.Sprintf("block %d handed to the chain service beyond the target %d", h, s.target))
+			s.failOrder(fmt.Sprintf("block %d handed to the chain service beyond the target %d", h, s.target))
 			s.delivered, s.wild = nil, true
 			return
 		}
@@ -195,11 +202,11 @@ func (s *fsess) checkDelivered() {
 		}
 		switch {
 		case b.GetHeader().GetBlockNo() != h:
-			s.fail(fmt.Sprintf("delivery #%d has height %d, expected %d (gap, duplicate or disorder)", k, b.GetHeader().GetBlockNo(), h))
+			s.failOrder(fmt.Sprintf("delivery #%d has height %d, expected %d (gap, duplicate or disorder)", k, b.GetHeader().GetBlockNo(), h))
 		case string(b.GetHash()) != string(want.GetHash()):
-			s.fail(fmt.Sprintf("delivery #%d at height %d is not the announced block", k, h))
+			s.failOrder(fmt.Sprintf("delivery #%d at height %d is not the announced block", k, h))
 		case string(b.GetHeader().GetPrevBlockHash()) != string(prev):
-			s.fail(fmt.Sprintf("delivery #%d at height %d is not a child of the previous delivery", k, h))
+			s.failOrder(fmt.Sprintf("delivery #%d at height %d is not a child of the previous delivery", k, h))
 		default:
 			continue
 		}
@@ -208,11 +215,11 @@ func (s *fsess) checkDelivered() {
 		return
 	}
 	if s.stopOK > 0 && len(s.delivered) != s.target-s.anc {
-		s.fail(fmt.Sprintf("success reported after %d of %d blocks", len(s.delivered), s.target-s.anc))
+		s.failOrder(fmt.Sprintf("success reported after %d of %d blocks", len(s.delivered), s.target-s.anc))
 		s.wild = true
 	}
 	if s.stopOK > 1 {
-		s.fail("success reported twice")
+		s.failOrder("success reported twice")
 		s.wild = true
 	}
 }
